@@ -237,7 +237,16 @@ def start_server(cache_dir, port=None, threads=1, cache_all=False, osrm_port=Non
                 break
             time.sleep(0.05)
         if ok:
-            h.ready_s = time.time() - t0
+            # the probe may have been answered by ANOTHER trRouting server that owns this port (a concurrently
+            # running check): our own process then dies a few milliseconds later with "bind: Address already in use"
+            time.sleep(0.08)
+            if proc.poll() is None:
+                h.ready_s = time.time() - t0
+                return h
+            if port is None and re.search(r"[Aa]ddress already in use|bind", h.output()):
+                h.stop(); last = h
+                continue
+            h.ready_s = None
             return h
         out = h.output()
         if port is None and (proc.poll() is None or re.search(r"[Aa]ddress already in use|bind", out)):
